@@ -130,7 +130,7 @@ class Evolver:
         r.shuffle(pos)
         kind = r.choice(["reorder_fields", "remove_field", "add_field_default", "add_field_nodefault", "rename_field_alias",
                          "rename_type_alias", "change_namespace", "promote", "demote", "enum_drop", "enum_add", "enum_reorder",
-                         "fixed_size", "move_definition", "wrap_union", "unwrap_union", "union_reorder", "union_drop", "union_add",
+                         "fixed_size", "move_definition", "change_kind", "wrap_union", "unwrap_union", "union_reorder", "union_drop", "union_add",
                          "promote", "remove_field", "reorder_fields", "wrap_union"])
         recs = [(p, n, ns, d) for p, n, ns, d in pos if isinstance(n, dict) and n.get("type") == "record"]
         if kind in ("reorder_fields", "move_definition") and recs:
@@ -239,6 +239,22 @@ class Evolver:
                     n.pop("default")
                 self.steps.append(kind)
                 return js
+        if kind == "change_kind" and named:
+            p, n, ns, d = named[0]
+            space, full = split_name(n, ns)
+            if not json_has_ref(js, full, full.rpartition(".")[2]):
+                new = r.choice([k for k in ("record", "enum", "fixed") if k != n["type"]])
+                repl = {"type": new, "name": full.rpartition(".")[2], "namespace": space}
+                if new == "record":
+                    repl["fields"] = []
+                elif new == "enum":
+                    repl["symbols"] = ["A", "B"]
+                else:
+                    repl["size"] = 2
+                if p and p[-1] == "type":
+                    get(js, p[:-1]).pop("default", None)
+                self.steps.append(kind)
+                return put(js, p, repl)
         fixeds = [x for x in named if x[1]["type"] == "fixed"]
         if kind == "fixed_size" and fixeds:
             p, n, ns, d = fixeds[0]
